@@ -237,6 +237,8 @@ def run(ck, tier, rng):
                 pm = oc.parse_rt(line)
                 if pm[0] == "ok":
                     # the decidable hypotheses of the theorems, evaluated by the model on this input
+                    # (no_default_clashb is a theorem since the writer's single-type-per-extension rule:
+                    #  C01_no_default_clash; it is still printed and must always be true)
                     if pm[4][0]:
                         hyp["wf"] += 1
                         if pm[4][1]:
@@ -303,3 +305,11 @@ def replay(rec):
     d = compare(model, r, pay)
     print("model/impl differences:", d)
     return 0 if not d else 1
+
+
+CLAIM = {
+    "tech": "Coq proof over a Gallina model of the OPC loader and writer (all package graphs, any lxml codec and any source tables as an abstract env) + tables re-extracted from the source tree each run + extracted-model correspondence on generated and corpus packages + independent oracle on the saved bytes",
+    "text": "7 theorems closed under the global context over every well-formed package (wf): the loaded package holds exactly the parts the relationship graph reaches, each once (the fuelled depth-first walk of _xml_rels / iter_rels is proved to compute reachability); the saved package has exactly the content types item, the package rels item, the reachable parts and the rels items of parts that have relationships; every part keeps its content type and payload (re-serialised for XML part classes, same bytes otherwise) with no side condition, because the writer uses a Default only for an extension the default table maps to one type (C01_no_default_clash); every source keeps its relationships (id, type, mode, resolved target or external text); open-save-open-save reproduces the same members with the same bytes. Tied to opc/package.py + opc/serialized.py by 4,000 (quick) / 40,000 (thorough) generated packages (cycles, shared targets, external links, ../ ./ and absolute targets, depth 0-5, Default/Override mixes with case flips, parts sharing an extension but not a type, binary and XML payloads, 16 malformations) delivered as stream, zip path and directory, plus corpus decks, comparing loaded graph, member order, decoded content types and rels, payloads and second-save identity; the generator's well-formed stream is confirmed to meet the decidable form of wf on every input.",
+    "note": "lxml enters as env hypotheses dec (enc x) = Some x and reser idempotent (observed through second-save byte identity); str.lower / isdigit modelled on ASCII; zipfile, os.path and Python's recursion limit (relationship chains about 1000 parts deep raise RecursionError) are outside the model; targets naming [Content_Types].xml or a rels item and member names that are not normalised part names are outside wf. The former counter-example (two .bin parts with different printer-settings types merged under one Default) is a regression Example and the oracle signature default-clash stays active.",
+    "ref": "6/C01",
+}
